@@ -37,7 +37,7 @@ func (s fsnap) clone() fsnap {
 }
 
 type primEv struct {
-	kind string // write | sync | create | remove
+	kind string // write | sync | create | remove | truncate
 	ext  string
 	off  int64
 	data []byte
@@ -139,6 +139,8 @@ func (c *crashState) hook(kind, name string, off int64, data []byte) {
 	case "remove>":
 		ev.kind = "remove"
 		delete(d, ext)
+	case "truncate>":
+		ev.kind = "truncate" // contents change like a write; durable only after the following sync
 	default:
 		return
 	}
@@ -208,7 +210,7 @@ func getClass(st quickfix.MessageStore, b, e int) string {
 	})
 }
 
-const wholeRangeEnd = 1 << 62
+const wholeRangeEnd = 1<<63 - 1 // the largest Go int: GetMessages over the whole range
 
 func (im *storeImpl) execCrash(w []string) string {
 	c := im.crash
